@@ -137,7 +137,7 @@ INT_DOM = [0, 1, 2]
 def gen_atom(rng: random.Random, asym_ok=True, arr=False):
     r = rng.random()
     if arr and r < 0.5:
-        return ("arr", "arr")
+        return ("arr", "arr") if rng.random() < 0.6 else ("arr", "arr2")
     if r < 0.45:
         c = rng.choice(["a", "b"])
         return ("eq", c, c)
@@ -187,6 +187,10 @@ def gen_tables(rng: random.Random, n_tables: int, max_rows=8, null_rate=None, id
             if with_arr:
                 r = rng.random()
                 row["arr"] = None if r < null_rate / 2 else [rng.choice(["p", "q", "r", "s"]) for _ in range(rng.choice([0, 1, 1, 2, 3]))]
+                # a second array column: a rule exploding both must see the CROSS PRODUCT of the elements (different lengths, shared
+                # elements at different positions)
+                r2 = rng.random()
+                row["arr2"] = None if r2 < null_rate / 2 else [rng.choice(["x", "y", "z"]) for _ in range(rng.choice([0, 1, 2, 2, 3]))]
             rows.append(row)
         tables.append(rows)
     return tables
@@ -216,11 +220,26 @@ def ranks(values):
     return [pos[v] for v in values]
 
 
+def arr_cols(rule) -> list[str]:
+    """The array columns a rule compares (its `arrays_to_explode`)."""
+    if rule[0] == "arr":
+        return [rule[1]]
+    if rule[0] in ("and", "or", "not"):
+        return sorted({c for x in rule[1:] for c in arr_cols(x)})
+    return []
+
+
 def explode_true(rule, l: dict, r: dict) -> bool:
-    """Some combination of array elements of l.arr and r.arr makes the rule TRUE (unnest drops NULL/empty arrays)."""
-    la, ra = l.get("arr"), r.get("arr")
-    if not la or not ra:
+    """Some combination of array elements - one element per exploded column and side, all combinations (cross product) - makes the
+    rule TRUE (unnest drops NULL/empty arrays)."""
+    cols = arr_cols(rule) or ["arr"]
+    if any(not l.get(c) or not r.get(c) for c in cols):
         return False
+    for xs in itertools.product(*[l[c] for c in cols]):
+        for ys in itertools.product(*[r[c] for c in cols]):
+            if ev(rule, dict(l, **dict(zip(cols, xs))), dict(r, **dict(zip(cols, ys)))) is True:
+                return True
+    return False
     for x, y in itertools.product(la, ra):
         if ev(rule, dict(l, arr=x), dict(r, arr=y)) is True:
             return True
